@@ -273,6 +273,53 @@ func runC05(w *World, r *Report) {
 		}
 	}
 
+	r.Rule("C05.rerun-input-rebuilt-from-state", "a node that asked for the interrupt is re-run with the zero input and its state pre-handler rebuilds the real one: the bundled agent's tools node can be such a node (a tool may return InterruptAndRerun), so its pre-handler records the assistant message in the history only where it was handed one (input != nil) and otherwise takes it from the state — or the resumed run hands nil to the tools node (nil dereference) and leaves a nil entry in the history", 1)
+	{
+		na := w.Fn("flow/agent/react", "NewAgent")
+		n := 0
+		for _, lit := range na.AnonFuncs {
+			sig := lit.Signature
+			if sig.Params().Len() != 3 || sig.Results().Len() != 2 {
+				continue
+			}
+			pt, isPtr := sig.Params().At(1).Type().(*types.Pointer)
+			if !isPtr || namedOf(pt) == nil || namedOf(pt).Obj().Name() != "Message" {
+				continue
+			}
+			in := lit.Params[1]
+			instrs(lit, func(x ssa.Instruction) {
+				c, ok := x.(*ssa.Call)
+				if !ok || !isBuiltin(c, "append") || len(c.Call.Args) < 2 {
+					return
+				}
+				// append(state.Messages, input): the appended list is a one-element slice holding the parameter
+				holds := false
+				if sl, isSl := c.Call.Args[1].(*ssa.Slice); isSl {
+					if al, isAl := sl.X.(*ssa.Alloc); isAl {
+						for _, ref := range *al.Referrers() {
+							if ia, isIA := ref.(*ssa.IndexAddr); isIA {
+								for _, r2 := range *ia.Referrers() {
+									if st, isSt := r2.(*ssa.Store); isSt && st.Val == ssa.Value(in) {
+										holds = true
+									}
+								}
+							}
+						}
+					}
+				}
+				if !holds {
+					return
+				}
+				n++
+				okG := hasGuard(c.Block(), func(g guard) bool { return guardNonNil(g, func(v ssa.Value) bool { return v == ssa.Value(in) }) })
+				r.Check(okG, "C05.rerun-input-rebuilt-from-state", fmt.Sprintf("react.NewAgent %s records its input in the history", lit.Name()), c.Pos(), "only under input != nil (the re-run arm reads the state)", "the pre-handler of the tools node treats the zero input of a re-run like a real assistant message: a tool that returns compose.InterruptAndRerun (human approval) interrupts the agent correctly, and the resumed run fails with a nil pointer dereference in genToolCallTasks (node path [agent, tools]) — an interrupt requested from inside a tool of the bundled agent can never be resumed")
+			})
+		}
+		if n == 0 {
+			undecidedf("C05.rerun-input-rebuilt-from-state: no pre-handler of react.NewAgent appends a *schema.Message input to the state")
+		}
+	}
+
 	shareRule(w, r, "C05.conversion-tables-read-only", "converting a checkpoint writes nothing into the compiled graph's tables (the stream pairs by sender are shared by every receiver and every later run): per-edge overrides go into a copy", 0, "C09", "C09.read-only-at-runtime")
 	shareRule(w, r, "C05.map-keys-read-as-written", "the serialiser reads a map key back by the rule it wrote it with (a named string key is not written raw and read as JSON): a state with map[schema.RoleType]… survives the byte store", 1, "C12", "C12.key-codec-symmetric")
 	shareRule(w, r, "C05.agent-state-fields-exported", "the fields of the bundled agents' state are exported: the byte store writes exported fields only and skips the rest silently, so an unexported field (the return-directly call id) comes back empty after a resume", 1, "C12", "C12.registered-exported")
